@@ -518,6 +518,12 @@ class bs__start:
     self_shape = BASESCREEN
     log_event = "_start"
 
+    def requires(s, a):
+        # started-before-the-start-hook-runs: the hook announces the screen's input descriptors
+        # (INPUT_DESCRIPTORS_CHANGED -> MainLoop._reset_input_descriptors -> Screen.get_input_descriptors, which
+        # reports the tty and the resize pipe exactly when the screen counts as started): owed by BaseScreen.start
+        return s._started == True  # noqa: E712
+
 
 @contract(DCM + "BaseScreen._stop", property=(), assumed=True, notes="subclass hook (terminal mode restoration): logged")
 class bs__stop:
